@@ -5,7 +5,7 @@ import random as _r
 from pv import common, detsched
 
 RULE = ("3-6 agents sharing one process, each a light stub (name, AgentDef with capacity / symmetric routes / one global "
-        "default route / hosting costs, computations() with footprints) with a real Discovery and a real UCSReplication "
+        "default route / hosting costs (a third of the deployments with non-integer route and hosting costs), computations() with footprints) with a real Discovery and a real UCSReplication "
         "built by build_replication_computation, plus a real Directory; 1-2 computations per agent with different "
         "footprints, random connected neighbour structure; deployment messages are drained, then replicate(k), k in "
         "1..3, is injected per agent at random points of a random per-channel-FIFO schedule; monitors: independent "
@@ -38,12 +38,14 @@ class StubAgent:
 def gen_deployment(rng):
     na = rng.randint(3, 6)
     agents = ["a%d" % i for i in range(na)]
-    default_route = rng.choice([1, 1, 2])
+    # a third of the deployments use non-integer costs (path costs are then sums of floats compared with budgets)
+    frac = rng.random() < 0.33
+    default_route = rng.choice([1, 1, 2]) if not frac else rng.choice([0.1, 0.7, 1.3])
     routes = {}
     for i, a in enumerate(agents):
         for b in agents[i + 1:]:
             if rng.random() < 0.6:
-                routes[(a, b)] = rng.choice([1, 2, 3, 5])
+                routes[(a, b)] = rng.choice([1, 2, 3, 5]) if not frac else rng.choice([0.1, 0.2, 0.3, 0.7, 1.1, 2.6])
     comps = []
     for a in agents:
         for j in range(rng.randint(1, 2)):
@@ -63,10 +65,10 @@ def gen_deployment(rng):
         cap_kind = rng.choice(["ample", "ample", "tight", "exact", "tiny"])
         own = sum(c["footprint"] for c in comps if c["agent"] == a)
         cap = {"ample": own + 100, "tight": own + rng.randint(3, 9), "exact": own + rng.choice([2, 4, 5]), "tiny": own + rng.randint(0, 2)}[cap_kind]
-        adefs[a] = {"capacity": cap, "default_hosting_cost": rng.choice([0, 1, 5]),
-                    "hosting_costs": {c: rng.choice([0, 1, 3, 10]) for c in names if rng.random() < 0.3}}
+        adefs[a] = {"capacity": cap, "default_hosting_cost": rng.choice([0, 1, 5]) if not frac else rng.choice([0, 0.1, 0.3, 1.7]),
+                    "hosting_costs": {c: (rng.choice([0, 1, 3, 10]) if not frac else rng.choice([0, 0.1, 0.6, 0.7, 3.3])) for c in names if rng.random() < 0.3}}
     return {"agents": agents, "default_route": default_route, "routes": [[a, b, r] for (a, b), r in routes.items()],
-            "comps": comps, "edges": [sorted(e) for e in edges], "agent_defs": adefs, "k": rng.randint(1, 3)}
+            "comps": comps, "edges": [sorted(e) for e in edges], "agent_defs": adefs, "k": rng.randint(1, 3), "fractional_costs": frac}
 
 
 class World:
@@ -279,6 +281,7 @@ def worker(job):
             R.count("accepts_while_holding_several", w.stats["accepts_nontrivial"])
             R.count("agents_reported_done", len(w.done))
             R.bump("k", str(dep["k"]))
+            R.bump("costs", "fractional" if dep.get("fractional_costs") else "integer")
             R.bump("status", status)
             seen = set()
             for key, m in P:
